@@ -273,3 +273,16 @@ func lemma_sizeMarshalList(o MarshalOptions, b []byte, fd protoreflect.FieldDesc
 	r, err := o.marshalList(b, fd, list)
 	ensures(err == nil && len(r)-len(b) == o.sizeList(fd.Number(), fd, list))
 }
+
+// Map entries, reflection path (C08, C07): the value object of an entry is created once, before
+// any value occurrence has been decoded, so that a repeated occurrence of the value field merges
+// into it (as the fast path and proto.Merge do) instead of replacing it.
+//
+// @ props C07 C08
+// @ mode int
+// @ nopanic
+// @ callsite mapv.NewValue: !haveVal
+func contract_UnmarshalOptions_unmarshalMap(o UnmarshalOptions, b []byte, wtyp protowire.Type, mapv protoreflect.Map, fd protoreflect.FieldDescriptor) (n int, err error) {
+	modifiesAll()
+	return
+}
